@@ -180,6 +180,14 @@ func (pl *LowNodeLoad) processOneNodePool(ctx context.Context, nodePool *desched
 
 	abnormalNodes := filterRealAbnormalNodes(sourceNodes, pl.nodeAnomalyDetectors, nodePool.AnomalyCondition)
 	abnormalProdNodes := filterRealAbnormalNodes(prodHighNodes, pl.prodAnomalyDetectors, nodePool.AnomalyCondition)
+	// the detectors are shared by all pools: a node that has got its mark for this round must not be
+	// marked (nor balanced) again by a later pool that selects it too, whichever way this pool ends
+	for _, v := range sourceNodes {
+		processedNodes.Insert(v.node.Name)
+	}
+	for _, v := range prodHighNodes {
+		processedNodes.Insert(v.node.Name)
+	}
 	if len(abnormalNodes) == 0 && len(abnormalProdNodes) == 0 {
 		klog.V(4).InfoS("None of the nodes were detected as anomalous, nothing to do here", "nodePool", nodePool.Name)
 		return nil
@@ -259,13 +267,6 @@ func (pl *LowNodeLoad) processOneNodePool(ctx context.Context, nodePool *desched
 	)
 	tryMarkNodesAsNormal(abnormalNodes, pl.nodeAnomalyDetectors)
 	tryMarkNodesAsNormal(abnormalProdNodes, pl.prodAnomalyDetectors)
-	for _, v := range sourceNodes {
-		processedNodes.Insert(v.node.Name)
-	}
-	// the prod pass evicts as well, later pools must not balance these nodes again on the same metrics
-	for _, v := range prodHighNodes {
-		processedNodes.Insert(v.node.Name)
-	}
 	return nil
 }
 
